@@ -432,6 +432,10 @@ func (e *fnEnc) encodeBlock(b *ssa.BasicBlock) {
 			e.vals[phi] = v
 			e.assert(imp(reach, e.rangeOf(v, phi.Type())))
 			e.assert(e.existsAt(v, phi.Type(), st.alloc))
+			if phi.Comment == "rangeindex" && v.Sort == SInt {
+				// go/ssa lowers `for i := range slice` to an index that starts at -1 and is only incremented
+				e.assert(le(intLit(-1), v))
+			}
 		}
 		env = e.envAt(b, nphi, st)
 		for _, cl := range e.loopClauses(li.ord, "loop-invariant") {
@@ -791,8 +795,13 @@ func (e *fnEnc) impureReason() string {
 				if c := e.eng.contracts[name]; c != nil && c.Options["pure"] != "" {
 					continue
 				}
-				switch name {
-				case "cmp.Compare", "strings.Compare", "bytes.Compare":
+				pureLib := false
+				for _, pre := range []string{"strings.", "unicode.", "unicode/utf8.", "bytes.", "cmp.", "path.", "path/filepath.", "strconv.", "math/bits."} {
+					if strings.HasPrefix(name, pre) {
+						pureLib = true
+					}
+				}
+				if pureLib {
 					continue
 				}
 				return "calls " + shortCallee(name) + " which is not declared pure"
